@@ -286,4 +286,60 @@ example (k : Nat) : ∀ r d', run (createDir Ex3.env 1 (rootAt Ex4.dev.fs 0) "Ne
       (Lfn.numParts (Names.encodeUtf16 "New dir".toList).length + 1) +
       (Lfn.numParts (Names.encodeUtf16 "New dir".toList).length + 1) ≤ 16 by decide +kernel) 0
 
+open DirSim in
+/-- **`rename` inside the fixed root: plain `Propagates`** on every device (any fault schedule) whose root region is
+    readable; `hfc`: a directory to be renamed has a first cluster (otherwise `rename` fails with `InvalidInput` in the
+    ancestor walk — not covered here) -/
+theorem rename_propagates_root {d : Dev} {N : Nat} (h : RootReadable d.disarm N) (hwf : d.img.WF)
+    (hB : 0x42 ≤ (rootSliceOf d.fs).beginOff) (hd : d.fault = none) (env : Env)
+    (srcPath dstPath srcName dstName : String)
+    (hs1 : Names.splitPath srcPath = (srcName, none)) (hs2 : Names.splitPath dstPath = (dstName, none))
+    (ha : d.fs.lfnAlloc = true)
+    (hfc : ∀ e, (DirView.ofRoot h).lookup env srcName none = .ok e → e.isDir = true → e.firstCluster d.fs ≠ none)
+    (hfit : ∀ a, DirAlias.checkForExistenceL env.upper (rootDirSlots d.fs d.img) dstName none 70000 = .ok (.alias a) →
+      DirSlots.findFree (rootDirSlots d.fs d.img) (Lfn.numParts (Names.encodeUtf16 dstName.toList).length + 1) +
+        (Lfn.numParts (Names.encodeUtf16 dstName.toList).length + 1) ≤ N) (fuel : Nat) :
+    ∀ r d', run (rename env (fuel + 1) (rootAt d.fs 0) srcPath (rootAt d.fs 0) dstPath) d = (r, d') →
+      FaultOutcome (resErr r) d' := by
+  have hsl : srcSlots d.img (fun o => (rootSliceOf d.fs).beginOff + o) N = rootDirSlots d.fs d.img :=
+    srcSlots_root (d := d.disarm) h
+  exact rename_propagates_wview (DirView.ofRoot h)
+    (WView.ofRoot (rootSliceOf d.fs) N h.slots rfl rfl hB d.disarm h.noFault h.inside hwf h.fuel) hd
+    (faultOK_ofRoot _ _ _ _ _ _ _ _ _ _ _) env srcPath dstPath srcName dstName hs1 hs2 ha
+    (fun e hl hdir => ⟨0, Climbs.top (DirView.ofRoot h) (by
+        have := hfc e hl hdir
+        show ((rootAt d.disarm.fs 0).firstCluster == e.firstCluster d.fs) = false
+        cases hc : e.firstCluster d.fs with
+        | none => exact absurd hc this
+        | some c => rfl) rfl, by omega⟩)
+    (fun a hc => by
+      have hc' : DirAlias.checkForExistenceL env.upper (rootDirSlots d.fs d.img) dstName none 70000 = .ok (.alias a) := by
+        rw [← hsl]; exact hc
+      have := hfit a hc'
+      rw [← hsl] at this
+      exact this) fuel
+
+open DirSim in
+/-- non-vacuity: for EVERY `k`, `rename("hello.txt", "Moved.txt")` on the root of `Ex4` armed with a fault at call `k` -/
+example (k : Nat) : ∀ r d', run (rename Ex3.env 1 (rootAt Ex4.dev.fs 0) "hello.txt" (rootAt Ex4.dev.fs 0) "Moved.txt")
+      { Ex4.dev with failAt := some k } = (r, d') → FaultOutcome (resErr r) d' :=
+  rename_propagates_root (d := { Ex4.dev with failAt := some k }) (N := 16)
+    ⟨rfl, Ex4.readable.inside, Ex4.readable.slots, Ex4.readable.fuel⟩ Ex4.wf
+    (show 0x42 ≤ (rootSliceOf Ex4.dev.fs).beginOff by decide) rfl Ex3.env "hello.txt" "Moved.txt" "hello.txt" "Moved.txt"
+    (by decide +kernel) (by decide +kernel) rfl
+    (fun e hl hdir => by
+      have h1 : (DirView.ofRoot Ex4.readable).lookup Ex3.env "hello.txt" none =
+          .ok (toDirEntryS (DirView.ofRoot Ex4.readable).src Ex4.hello) := by decide +kernel
+      have hl' : (DirView.ofRoot Ex4.readable).lookup Ex3.env "hello.txt" none = .ok e := hl
+      rw [h1] at hl'
+      injection hl' with h2
+      subst h2
+      have : (toDirEntryS (DirView.ofRoot Ex4.readable).src Ex4.hello).isDir = false := by decide +kernel
+      rw [this] at hdir; cases hdir)
+    (fun a _ => by
+      have : DirSlots.findFree (rootDirSlots Ex4.dev.fs Ex4.dev.img)
+          (Lfn.numParts (Names.encodeUtf16 "Moved.txt".toList).length + 1) +
+          (Lfn.numParts (Names.encodeUtf16 "Moved.txt".toList).length + 1) ≤ 16 := by decide +kernel
+      exact this) 0
+
 end FatVerif
